@@ -275,9 +275,12 @@ def proj_c15(c):
         return 'skipped'
     import k3_oracle
     documented = k3_oracle.expected_refusal(c.step['op'], c.pre)
-    if c.step['out'] != 'ok' or documented is not None:
+    if k == 'q' or c.step['out'] != 'ok' or documented is not None:
         # a refusal happened, or one of the documented refusals is due: class and (non-)acceptance must match the model
         cmp_out(c, 'accepted/refused and error class')
+    if k == 'q' and c.step['op'][1] == 'cash' and c.step['out'] == 'ok' and c.mf.get('out') == 'ok':
+        # the account-level balance of a supported currency: the master cash for the base currency, zero for the others
+        c.disc('get_account_cash_balance(%r)' % c.step['op'][2], f2b(c.step['value'] + 0.0), f2b(b2f(c.mf['value']) + 0.0))
     if c.step['out'] != 'ok':
         if k == 'q':
             return
